@@ -1584,12 +1584,13 @@ impl<'a> UserModel<'a> {
     /// * [Model::set_frozen_rows()]
     pub fn set_frozen_rows_count(&mut self, sheet: u32, frozen_rows: i32) -> Result<(), String> {
         let old_value = self.model.get_frozen_rows_count(sheet)?;
+        self.model.set_frozen_rows(sheet, frozen_rows)?;
         self.push_diff_list(vec![Diff::SetFrozenRowsCount {
             sheet,
             new_value: frozen_rows,
             old_value,
         }]);
-        self.model.set_frozen_rows(sheet, frozen_rows)
+        Ok(())
     }
 
     /// Sets the number of frozen columns in sheet
@@ -1602,12 +1603,13 @@ impl<'a> UserModel<'a> {
         frozen_columns: i32,
     ) -> Result<(), String> {
         let old_value = self.model.get_frozen_columns_count(sheet)?;
+        self.model.set_frozen_columns(sheet, frozen_columns)?;
         self.push_diff_list(vec![Diff::SetFrozenColumnsCount {
             sheet,
             new_value: frozen_columns,
             old_value,
         }]);
-        self.model.set_frozen_columns(sheet, frozen_columns)
+        Ok(())
     }
 
     /// Paste `styles` in the selected area
